@@ -1234,7 +1234,7 @@ void eval_instruction (const char *p) {
                       break;
                     case T_STRING:
                       {
-                        char buff[40];
+                        char buff[400]; /* %lf of DBL_MAX needs 317 bytes */
 
                         sprintf (buff, "%lf", (sp + 1)->u.real);
                         EXTEND_SVALUE_STRING (sp, buff, "f_add: 2");
@@ -1288,7 +1288,7 @@ void eval_instruction (const char *p) {
                       }		/* end of T_NUMBER + T_STRING */
                     case T_REAL:
                       {
-                        char buff[40];
+                        char buff[400]; /* %lf of DBL_MAX needs 317 bytes */
 
                         sprintf (buff, "%lf", (sp - 1)->u.real);
                         SVALUE_STRING_ADD_LEFT (buff, "f_add: 3");
@@ -1333,7 +1333,7 @@ void eval_instruction (const char *p) {
                 }
               else if (sp->type == T_REAL)
                 {
-                  char buff[40];
+                  char buff[400]; /* %lf of DBL_MAX needs 317 bytes */
 
                   sprintf (buff, "%lf", sp->u.real);
                   EXTEND_SVALUE_STRING (lval, buff, "f_add_eq: 2");
